@@ -303,7 +303,8 @@ class BaseClient:
         return result.event
 
     def trigger_event(self, event: events.BaseEvent):
-        for callback in self.callbacks:
+        # iterate over a copy: a callback may remove itself (or another one)
+        for callback in list(self.callbacks):
             if callback.accepts_event(event):
                 try:
                     if asyncio.iscoroutinefunction(callback.callback):
